@@ -309,6 +309,10 @@ def steer(pkg, rng, with_dates):
     first.steps.append(("steerflags", M.Union((("SteerFlags", M.Named("SteerFlags")), ("int32", M.Prim("int32"))), nullable=rng.chance(0.5)), True))
     first.steps.append(("steerenum", M.Union((("SteerEnum", M.Named("SteerEnum")), ("bool", M.Prim("bool")), ("float64", M.Prim("float64"))), nullable=False), True))
     first.steps.append(("steerrec", M.Named("SteerRec"), True))
+    # unions in which every case has a JSON kind of its own (so they are written untagged) and one case is an enum or a
+    # flags type: a value without a symbol / with bits beyond the symbols is written as a bare integer
+    first.steps.append(("steerenumonly", M.Union((("SteerEnum", M.Named("SteerEnum")), ("bool", M.Prim("bool"))), nullable=rng.chance(0.5)), True))
+    first.steps.append(("steerflagsonly", M.Union((("SteerFlags", M.Named("SteerFlags")), ("string", M.Prim("string"))), nullable=rng.chance(0.5)), True))
     # flag sets that shrink from one stream item to the next (all symbols, one, none, ...), bare and as a record field: a
     # reader that builds a set up in place must start from nothing for every item
     pkg.files[fn].append(M.Record("SteerFlagRec", (), [("mode", M.Named("SteerFlags")), ("level", M.Prim("uint8"))]))
@@ -433,6 +437,13 @@ def model_task(task, ybin, root, prop):
                             ns_ = secs * 10 ** 9 + frac
                             out_.append(ns_ if sn_ == "steertimes" else (tr.next() % (4 * 10 ** 9)) * 10 ** 9 + ns_ - 10 ** 18)
                         vals[k_] = out_
+                    if sn_ in ("steerenumonly", "steerflagsonly") and r.fork("barenums", sn_).chance(0.7):
+                        br_ = r.fork("barenums2", sn_)
+                        ints_ = [7, 1, 99, 0, 5] if sn_ == "steerenumonly" else [4, 64, 68, 3, 0, 16]
+                        # (values with and without symbols, and the other case, in seeded order)
+                        items_ = [("u", 0, x_) for x_ in ints_] + [("u", 1, True if sn_ == "steerenumonly" else "txt")]
+                        br_.shuffle(items_)
+                        vals[k_] = items_[:br_.randint(3, len(items_))]
                     if sn_ == "steerinstants":
                         tr_ = r.fork("instants")
                         out_ = []
